@@ -149,7 +149,7 @@ INTERN = {}
 
 def cstr_raw(s):
     t = coqlit.cstr(s)
-    return '(bz [' + t[5:] if t.startswith('(bs [') else t      # case files are in Z_scope
+    return t      # coqlit.cstr emits (bs [...]%nat), which is well-typed in any scope
 
 
 def cstr(s):
